@@ -3,29 +3,24 @@
    more than k of the ranges), over any correct backing bit vector, in every build configuration,
    for all arguments.  Pinned statements only; proofs are in Proofs/WMQuantile.v and
    Proofs/WMIntersect.v (on top of Proofs/WMLists.v, WMBuild.v, WMQueries.v).
-   `b_build_ok` is the interface to the backings, as in Props/C05.v. *)
+   The premise about the backings is discharged in Proofs/Integration.v, as in Props/C05.v. *)
 From Sucds Require Import Base.Res Spec.BitSpec Spec.SeqSpec Spec.DacSpec Model.BitVector Model.Wavelet
-  Proofs.BVAbs Proofs.IndexSpecs Proofs.WMBuild Proofs.WMQueries Proofs.WMQuantile Proofs.WMIntersect.
+  Proofs.BVAbs Proofs.IndexSpecs Proofs.WMBuild Proofs.WMQueries Proofs.WMQuantile Proofs.WMIntersect
+  Proofs.Integration.
 Open Scope N_scope.
 
-Theorem C06_quantile : forall
-    (b_build_ok : forall k bv, wf bv -> cap_ok bv ->
-     exists b, (forall c, b_build c k bv = Ok b) /\ (forall c, backing_correct c b (bits_of bv)))
-    c0 k s wm,
+Theorem C06_quantile : forall c0 k s wm,
   s <> [] /\ max_list s + 1 < W /\ lenN s < 2 ^ 50 -> wm_new c0 k s = Ok (Some wm) ->
   forall c a b j, a < W -> b < W -> j < W ->
   wm_quantile c wm a b j = Ok (SeqSpec.wm_quantile s a b j).
-Proof. exact wm_quantile_spec. Qed.
+Proof. exact wm_quantile_closed. Qed.
 Print Assumptions C06_quantile.
 
 (* ranges and threshold are arbitrary (no bound is needed) *)
-Theorem C06_intersect : forall
-    (b_build_ok : forall k bv, wf bv -> cap_ok bv ->
-     exists b, (forall c, b_build c k bv = Ok b) /\ (forall c, backing_correct c b (bits_of bv)))
-    c0 k s wm,
+Theorem C06_intersect : forall c0 k s wm,
   s <> [] /\ max_list s + 1 < W /\ lenN s < 2 ^ 50 -> wm_new c0 k s = Ok (Some wm) ->
   forall c rs j, wm_intersect c wm rs j = Ok (SeqSpec.wm_intersect s rs j).
-Proof. exact wm_intersect_spec. Qed.
+Proof. exact wm_intersect_closed. Qed.
 Print Assumptions C06_intersect.
 
 (* a concrete instance, computed: "banana" over the plain BitVector backing, dev configuration *)
